@@ -101,6 +101,38 @@ def run(ctx):
             ctx.violation(R, f.short, "datatype=%s,json" % name,
                           "the JSON well-formedness test (json.loads) is %s" %
                           ("missing" if want_res else "unexpected"))
+    # the dispatch table itself: every datatype name (and tag letter) is
+    # routed to a module that accepts the grammar of *that* datatype
+    for dt, m in sorted(fm.items()):
+        want = spec.TAG_DATATYPES.get(dt, dt)
+        if want not in spec.GRAMMAR:
+            if want == "alignment_gfa2":
+                continue
+            raise AnalysisError("datatype %s has no reference grammar in "
+                                "spec.GRAMMAR" % dt)
+        ctx.instance(R)
+        mname = m.name.split(".")[-1]
+        lang = langs.get(mname)
+        ok = lang is not None
+        w = side = None
+        if ok and mname != want:
+            ref = reference_language(spec.GRAMMAR[want])
+            ok, w, side = lang.equals(ref)
+        ctx.oblige(ok)
+        if not ok:
+            ctx.violation(
+                R, "field.field.Field", "FIELD_MODULE[%s]" % dt,
+                "datatype %s is decoded / validated by module %s, which %s "
+                "the string %r that the grammar of %s %s" % (
+                    dt, mname, "accepts" if side == "left" else "rejects", w,
+                    want, "rejects" if side == "left" else "accepts"))
+    for want in sorted(spec.GRAMMAR):
+        ctx.instance(R)
+        ok = want in fm
+        ctx.oblige(ok)
+        if not ok:
+            ctx.violation(R, "field.field.Field", "FIELD_MODULE[%s]" % want,
+                          "datatype %s is not in the dispatch table" % want)
     ctx.exhaustive[R] = True
     if ctx.tier == "thorough":
         n = rx.self_test(sorted(set(all_regexes)), 4000, ctx.seed)
@@ -593,6 +625,9 @@ def run(ctx):
     ctx.exhaustive[R] = True
 
     # ------------------------------------------------------------------
+    rule_custom_record_tag_scan(ctx, "C04.custom_record_tag_scan")
+
+    # ------------------------------------------------------------------
     R = "C04.document_validation"
     ctx.rule(R, "Gfa.validate runs the segment-reference, path-link, "
              "group-item and GFA2-position validators, and the rGFA "
@@ -810,3 +845,59 @@ def json_guarded(repo, module):
                    for b in n.body for c in ast.walk(b)):
                 return True
     return False
+
+
+def rule_custom_record_tag_scan(ctx, R):
+    """shared by C01 and C04: custom records find their tags heuristically"""
+    import itertools as _it
+    from ..tables import Raised
+    repo = ctx.repo
+    ctx.rule(R, "CustomRecord._initialize_tags scans the fields from the "
+             "right and stops at the first one that cannot be taken as a tag "
+             "-- whatever library error refuses it (not tag-shaped, name "
+             "already used by a tag further right, content invalid for the "
+             "datatype): that field and everything before it are positional "
+             "fields, and the line is accepted", floor=8)
+    custom = repo.cls("line.CustomRecord")
+    f = ctx.anchor("CustomRecord._initialize_tags",
+                   custom.find_method("_initialize_tags"))
+    errors = ["gfapy.FormatError", "gfapy.NotUniqueError", "gfapy.ValueError",
+              "gfapy.TypeError", "gfapy.InconsistencyError"]
+    for where, err, bad in _it.product(("parse", "store"), errors, (1, 2, 3)):
+        if where == "parse" and err != "gfapy.FormatError":
+            continue
+        ctx.instance(R)
+        strings = ["X", "f1", "f2", "f3"]
+
+        class TH(LineHooks):
+            def before_inline(self, ev, func, args, kwargs, bad=bad, err=err,
+                              where=where):
+                if func.name == "_parse_gfa_tag":
+                    i = strings.index(args[0])
+                    if where == "parse" and i == bad:
+                        raise Raised(err)
+                    return ["t%d" % i, "Z", "v"]
+                if func.name == "_initialize_tag":
+                    i = int(args[1][1:])
+                    if where == "store" and i == bad:
+                        raise Raised(err)
+                    ev.events.append(("tag", i))
+                    return None
+                if func.name == "_delayed_initialize_positional_fields":
+                    ev.events.append(("positional", args[2]))
+                    return None
+                return NotImplemented
+        ln = Abs(custom, label="line", vlevel=1, _data={}, _datatype={})
+        out = eval_function(repo, f, [ln, strings], hooks=TH(repo))
+        tags = [e[1] for e in out[2] if e[0] == "tag"]
+        npos = [e[1] for e in out[2] if e[0] == "positional"]
+        ok = out[0] == "return" and npos == [bad + 1] and \
+            tags == list(range(3, bad, -1))
+        ctx.oblige(ok)
+        if not ok:
+            ctx.violation(R, f.short, "field=%d,refused_by=%s,%s" % (
+                bad, where, err.split(".")[1]),
+                "outcome %r, tags taken %r, positional fields %r; expected "
+                "the fields up to index %d to become positional" % (
+                    out[0:2], tags, npos, bad))
+    ctx.exhaustive[R] = True
